@@ -3,35 +3,49 @@
 Reading (where the property text leaves a choice, the one under which the minimally repaired code is right):
 * valid arguments: integer times; a NEGATIVE time point must be rejected with InvalidTimePointException and
   leave the part untouched; `add(o, start, end)` supplies a side only if `o` is not currently registered on
-  that side (re-adding after `remove` is valid); quarter durations are integers >= 1 set at times >= 0;
+  that side (re-adding after `remove` is valid; `add(o, start)` followed by `add(o, end=...)` is valid and is
+  the same as the one-call form); quarter durations are integers >= 1 set at times >= 0;
 * "never empty": a time point without objects may exist only if its time was the argument of
   `get_or_add_point` since the point was created (the API creates such points on request);
 * "in time order": the order among objects of ONE time point is not part of the property (the oracle checks
-  set equality + non-decreasing times; the correspondence still compares the exact sequence);
+  one segment per time point, set equality inside a segment; the correspondence compares the exact sequence);
 * "the next later change" of `set_quarter_duration(t, q)`: the next entry of `quarter_durations()` (as it was
-  before the call) with a time > t.
+  before the call) with a time > t;
+* double registration (`add(o, start=5)` then `add(o, start=7)`) is OUTSIDE the property's quantifier, but the
+  check covers it: the code moves `o.start` to the new point and leaves `o` listed by the old point as well.
+  All clauses of the property except "only the point an object refers to lists it" must still hold (theorem
+  `winv_reachable`), and the oracle checks them against a bookkeeping of LISTINGS (object, side, time) that
+  follows `add_any_effect` / `remove_any_effect`; `remove` of an unregistered object must change nothing.
 
 Correspondence: a random edit history is applied to a REAL `partitura.score.Part`; after EVERY operation
 the full observable state (points with t/quarter/prev/next and both registries per class in order, every
 object's start/end, quarter_durations(), the raw quarter lists, the cached quarter map at probe times) and
 the operation's result are compared with the Lean model's answer (Model/Timeline.lean through drv_c01).
+`quarter_duration_map` (fresh and cached) is additionally called on arbitrary rational times as scalar, list
+and array; numpy's searchsorted / insert / delete on object arrays of TimePoints are compared with the modelled
+algorithms (binary search, slice copies) on sorted AND unsorted arrays and on the part's own arrays.
 Oracle: the invariant, the frame conditions, the set_quarter_duration law and query correctness evaluated on
 the real part against this module's own bookkeeping of what is registered (independent of the Lean model).
 """
 import os
 import warnings
+from fractions import Fraction
 
 import wire as W
 from core import Eval
 
 PROPERTY = "C01"
 DRIVER = "drv_c01"
-PROPS = ["PartituraModel.Props.C01"]
+PROPS = ["PartituraModel.Props.C01", "PartituraModel.Props.C01Any", "PartituraModel.Props.C01Np",
+         "PartituraModel.Props.C01Classes"]
 TRUSTED = [
-    "numpy.searchsorted(side=left)/np.insert/np.delete on the object array of TimePoints (modelled as prefix count / "
-    "List.insertIdx / List.eraseIdx); ComparableMixin comparison = comparison of t",
-    "scipy interp1d(kind=previous, fill_value=(y0, y-1)) = value of the last table entry <= t (modelled by qdAt; "
-    "compared at every table/point time after every operation)",
+    "numpy runs the textbook algorithms: np.searchsorted(side=left) = the binary search `bsearch`, np.insert/np.delete "
+    "for one index = slice copies `npInsert/npDelete` (compared on sorted and unsorted TimePoint object arrays); that the "
+    "model's prefix count / List.insertIdx / List.eraseIdx equal them on the part's sorted arrays is PROVED "
+    "(bsearch_eq_searchsorted, timeline_np); ComparableMixin comparison = comparison of t",
+    "scipy interp1d(kind=previous, fill_value=(y0, y-1)) = value of the last table entry <= x (modelled by qdAtQ/qdAt, "
+    "specified by quarterMap_correct; compared at every table/point time after every operation and at random rational "
+    "times as scalar/list/array, fresh and cached map)",
     "identity of TimePoint objects abstracted to their time (sound under the invariant: times are unique); the oracle "
     "checks prev/next/start/end by object identity on the real part",
     "class-keyed defaultdict(_OrderedSet) registries modelled as one insertion-ordered list per side, per-class view by "
@@ -39,28 +53,40 @@ TRUSTED = [
     "harness/translate_classes.py: the class DAG, __subclasses__() order and iter_subclasses sequences are the live ones",
 ]
 PARTIAL = [
-    "Valid excludes double registration of one side and objects registered under a superclass (documented 'not "
-    "implemented' in Part.remove): such histories (about 4% of the generated ones) are only compared with the model",
+    "histories with double registration of one side (outside Valid, ~15% of the generated ones): proved are WInv (all "
+    "clauses but 'only the referenced point lists the object'), the exact effect on references and listings "
+    "(add_any_effect, add_twice_effect, remove_any_effect, remove_unregistered_effect) and the query results per "
+    "listing; that such a part is no longer 'exactly the collection of the registered objects' is what the code does "
+    "(add_twice_effect proves the negation of Inv there) - the property excludes the call",
     "order among the objects of ONE time point is compared exactly with the model; the theorems state duplicate-freeness, "
     "exact membership and time order",
-    "query theorems assume the class ids of the registered objects and of the query lie in the generated DAG "
-    "(hypotheses hk/hc); cls=None is modelled as `object` restricted to timed classes",
-    "set_quarter_duration with a negative time is not rejected by the code; it is outside Valid and not generated",
-    "non-termination of iter_prev/iter_next on cyclic links is modelled as an error value (never reached under Inv: "
-    "iterPrev_correct/iterNext_correct show the walk succeeds)",
+    "cls=None is modelled as `object` restricted to timed classes; objects of classes defined outside partitura.* are "
+    "not generated (ClsOk: class ids of added objects are rows of the generated table)",
+    "set_quarter_duration with a negative time is not rejected by the code; it is outside Valid/QDNonneg and not generated",
+    "TimePoint.remove_starting_object/remove_ending_object (called by the Slur/Tuplet note setters, bypassing "
+    "_cleanup_point) are not operations of the property's histories and are not modelled",
+    "non-termination of iter_prev/iter_next on cyclic links is modelled as an error value (never reached under WInv: "
+    "iterPrev_any_history/iterNext_any_history show the walk succeeds in every reachable state)",
+    "the cache Part._quarter_map is not a separate model component (it is compared with the fresh map after every operation)",
 ]
 RULE = ("random edit histories of 1-60 operations (add by start/end/both, remove start/end/both, set_quarter_duration, "
-        "get_or_add_point, iter_all, iter_prev/next, first/last/get_point, quarter_durations) over 2-12 objects of 3-8 "
-        "classes drawn from the whole TimedObject DAG (biased to GraceNote<Note<GenericNote and the multiply-inheriting "
-        "direction classes), times from a pool of 2-6 small values (coincidences, first/last point, equal start/end), "
-        "occasionally huge or negative; a sweep over every class x include_subclasses x mode closes each history; "
+        "get_or_add_point, iter_all, iter_prev/next, first/last/get_point, quarter_durations with both bounds, "
+        "quarter_duration_map on rational times as scalar/list/array, numpy searchsorted/insert/delete on TimePoint arrays) "
+        "over 2-12 objects of 3-8 classes drawn from the whole TimedObject DAG (biased to GraceNote<Note<GenericNote and the "
+        "multiply-inheriting direction classes), times from a pool of 2-6 small values (coincidences, first/last point, "
+        "equal start/end), occasionally huge or negative; ~15% of the histories register a side twice and remove "
+        "unregistered objects; a sweep over every class x include_subclasses x mode closes each history; "
         "distinct = distinct (classes, operation list); non-trivial = at least one removal or quarter change succeeded "
         "on a non-empty timeline")
 LEVEL_TEXT = ("Machine-checked proof (Lean 4) that the modelled timeline state machine keeps the full invariant along every "
-              "valid history, rejects negative times without effect, obeys the set_quarter_duration law and answers "
-              "queries with exactly the registered matching objects in time order; the model is tied to the code by a "
-              "lock-step differential comparison of the complete observable state after every operation of random "
-              "histories, and the class DAG is regenerated from the live classes and re-checked by kernel evaluation.")
+              "valid history and the weak invariant (everything but 'only the referenced point lists the object') along "
+              "EVERY history, rejects negative times without effect, obeys the set_quarter_duration law, evaluates "
+              "quarter_duration_map as the step function of the table at arbitrary times, and answers queries with exactly "
+              "the registered matching objects in time order for arbitrary query classes (the MRO table is proved to be the "
+              "reflexive-transitive closure of the __subclasses__() table); numpy's searchsorted/insert/delete are replaced "
+              "by proved algorithm models; the model is tied to the code by a lock-step differential comparison of the "
+              "complete observable state after every operation of random histories, and the class DAG is regenerated from "
+              "the live classes and re-checked by kernel evaluation.")
 SEARCH_LIMIT = 6000
 
 _CT = None
@@ -137,12 +163,12 @@ def gen_history(rng, tier):
         return time_()
 
     nops = rng.randint(1, 60) if rng.random() < 0.85 else rng.randint(1, 8)
-    lenient = rng.random() < 0.04  # a few histories with double registration (outside Valid: compared only)
+    lenient = rng.random() < 0.15  # histories with double registration (outside Valid; WInv + listings oracle)
     reg = [[None, None] for _ in range(nobj)]
     ops = []
     for _ in range(nops):
         x = rng.random()
-        if x < 0.30:
+        if x < 0.28:
             # add: prefer an object with a free side
             cand = [i for i in range(nobj) if reg[i][0] is None or reg[i][1] is None]
             if not cand or (lenient and rng.random() < 0.3):
@@ -174,9 +200,9 @@ def gen_history(rng, tier):
                 if e is not None:
                     reg[o][1] = e
             ops.append(["add", o, s, e])
-        elif x < 0.52:
+        elif x < 0.49:
             cand = [i for i in range(nobj) if reg[i][0] is not None or reg[i][1] is not None]
-            if not cand or rng.random() < 0.08:
+            if not cand or rng.random() < (0.25 if lenient else 0.08):
                 cand = list(range(nobj))
             o = rng.choice(cand)
             w = rng.choice(["s", "e", "b", "b"])
@@ -185,27 +211,64 @@ def gen_history(rng, tier):
             if w in "eb":
                 reg[o][1] = None
             ops.append(["rm", o, w])
-        elif x < 0.63:
+        elif x < 0.59:
             ops.append(["qd", time_(neg_ok=False), rng.choice([1, 1, 2, 3, 4, 12, 480])])
-        elif x < 0.68:
+        elif x < 0.64:
             ops.append(["goa", time_()])
-        elif x < 0.82:
+        elif x < 0.77:
             c = qcls()
             if c is None and rng.random() < 0.6:
                 c = rng.choice(cpool)
             ops.append(["all", c, bound(), bound(), rng.random() < 0.6,
                         rng.choice(["starting", "starting", "ending", "ending", "ending", "foo"])])
-        elif x < 0.90:
+        elif x < 0.85:
             c = qcls()
             if c is None and rng.random() < 0.8:
                 c = rng.choice(anc)
             ops.append([rng.choice(["prev", "next"]), time_(), c, rng.random() < 0.5, rng.random() < 0.6])
-        elif x < 0.93:
+        elif x < 0.88:
             ops.append([rng.choice(["first", "last"])])
-        elif x < 0.97:
+        elif x < 0.91:
             ops.append(["gp", time_()])
+        elif x < 0.945:
+            a = bound()
+            b = bound()
+            if a is not None and b is not None and rng.random() < 0.5:
+                a, b = min(a, b), max(a, b) + rng.randint(0, 6)
+            ops.append(["qds", a, b])
+        elif x < 0.975:
+            # quarter_duration_map at arbitrary (non-point, rational) times: [numerator, denominator] pairs
+            xs = []
+            for _ in range(rng.randint(1, 5)):
+                y = rng.random()
+                if y < 0.35:
+                    xs.append([time_(neg_ok=False), 1])
+                elif y < 0.65:
+                    xs.append([2 * time_(neg_ok=False) + rng.choice([-1, 1]), 2])
+                elif y < 0.85:
+                    xs.append([rng.randrange(0, 100), 8])
+                elif y < 0.93:
+                    xs.append([-rng.randrange(1, 9), rng.choice([1, 2, 4])])
+                else:
+                    xs.append([rng.choice([10 ** 6, 2 ** 40 + 1, 65537]), rng.choice([1, 2])])
+            ops.append(["qmap", xs, rng.choice(["scalar", "list", "array", "array", "array2d"])])
         else:
-            ops.append(["qds", bound(), bound()])
+            # numpy primitives on TimePoint object arrays (stateless), or on the part's own arrays
+            y = rng.random()
+            n = rng.randint(0, 9)
+            arr = [rng.randint(0, 12) for _ in range(n)]
+            if rng.random() < 0.7:
+                arr.sort()
+                if rng.random() < 0.6:
+                    arr = sorted(set(arr))
+            if y < 0.3:
+                ops.append(["npstate", time_(neg_ok=False) if rng.random() < 0.8 else rng.randrange(0, 30)])
+            elif y < 0.6:
+                ops.append(["np_ss", arr, rng.randint(-1, 13)])
+            elif y < 0.8:
+                ops.append(["np_ins", arr, rng.randint(0, len(arr) + 1), rng.randint(0, 12)])
+            else:
+                ops.append(["np_del", arr, rng.randint(0, len(arr) + 1)])
     ops.append(["sweep", bound() if rng.random() < 0.5 else None, bound() if rng.random() < 0.5 else None,
                 rng.random() < 0.12])
     return {"q0": rng.choice([1, 1, 4, 480]), "cls": cls, "ops": ops}
@@ -318,6 +381,17 @@ def request_of(op):
         return "qds %s %s" % (_o(op[1]), _o(op[2]))
     if k == "sweep":
         return "sweep %s %s %s" % (_o(op[1]), _o(op[2]), W.b(op[3]))
+    if k == "qmap":
+        xs = op[1][:1] if op[2] == "scalar" else op[1]
+        return "qmap " + W.lst(lambda nd: W.q(Fraction(nd[0], nd[1])), xs)
+    if k == "np_ss":
+        return "np ss %s %d" % (W.lst(W.i, op[1]), op[2])
+    if k == "np_ins":
+        return "np ins %s %d %d" % (W.lst(W.i, op[1]), op[2], op[3])
+    if k == "np_del":
+        return "np del %s %d" % (W.lst(W.i, op[1]), op[2])
+    if k == "npstate":
+        return "npstate %d" % op[1]
     raise ValueError(k)
 
 
@@ -384,6 +458,53 @@ def perform(cx, op):
                 cell.append(_ilist(cx.ids(res)))
             rows.append("[" + ",".join(cell) + "]")
         return "sweep:[" + ",".join(rows) + "]", raw
+    if k == "qmap":
+        import numpy as np
+
+        fr = [Fraction(n, d) for n, d in op[1]]
+        fl = [float(x) for x in fr]  # denominators are powers of two: exact
+        if op[2] == "scalar":
+            arg = fl[0] if fr[0].denominator != 1 else int(fr[0])
+            fr = fr[:1]
+        elif op[2] == "list":
+            arg = [int(x) if x.denominator == 1 else float(x) for x in fr]
+        elif op[2] == "array2d":
+            arg = np.array([fl, fl])
+        else:
+            arg = np.array(fl)
+        fresh = np.asarray(p.quarter_duration_map(arg), dtype=float)
+        cached = np.asarray(p._quarter_map(arg), dtype=float)
+        if op[2] == "array2d":
+            shape_ok = fresh.shape == (2, len(fl)) and bool((fresh[0] == fresh[1]).all())
+            fresh, cached = fresh[0], cached[0]
+        else:
+            shape_ok = fresh.shape == (() if op[2] == "scalar" else (len(fr),))
+        fv = [float(v) for v in fresh.reshape(-1)]
+        cv = [float(v) for v in cached.reshape(-1)]
+        txt = "qmap:[" + ",".join(("%d" % int(v)) if v == int(v) else "?%r" % v for v in fv) + "]"
+        return txt, {"x": fr, "fresh": fv, "cached": cv, "shape_ok": shape_ok}
+    if k in ("np_ss", "np_ins", "np_del"):
+        import numpy as np
+
+        S = cx.S
+        arr = np.array([S.TimePoint(t) for t in op[1]], dtype=object) if op[1] else np.array([], dtype=S.TimePoint)
+        try:
+            if k == "np_ss":
+                r = int(np.searchsorted(arr, S.TimePoint(op[2])))
+                return "np:%d" % r, r
+            if k == "np_ins":
+                r = [tp.t for tp in np.insert(arr, op[2], S.TimePoint(op[3]))]
+            else:
+                r = [tp.t for tp in np.delete(arr, op[2])]
+            return "np:" + _ilist(r), r
+        except IndexError:
+            return "np:-", None
+    if k == "npstate":
+        import numpy as np
+
+        a = int(np.searchsorted(p._points, cx.S.TimePoint(op[1])))
+        b = int(np.searchsorted(p._quarter_times, op[1]))
+        return "np:(%d,%d,%d,%d)" % (a, a, b, b), (a, b)
     raise ValueError(k)
 
 
@@ -400,15 +521,23 @@ def qfn(table, x):
 
 
 class Book:
-    """the harness's own record of the history: which object is registered where, requested points"""
+    """the harness's own record of the history: the back reference (start/end time) of every object, the
+    LISTINGS (object, time) per side that the registries must hold, the requested points.
+    In a history inside `Valid` the listings are exactly the back references; a double registration leaves the
+    former listing behind (it is what `add` does: nothing is ever deregistered by `add`)."""
 
     def __init__(self, n):
         self.reg = [[None, None] for _ in range(n)]
+        self.listed = [set(), set()]
         self.requested = set()
         self.valid = True
 
     def times(self):
-        return set(t for r in self.reg for t in r if t is not None)
+        return set(t for side in self.listed for _, t in side)
+
+    def strict(self):
+        return all(self.listed[sd] == set((i, r[sd]) for i, r in enumerate(self.reg) if r[sd] is not None)
+                   for sd in (0, 1))
 
 
 def check_invariant(cx, bk):
@@ -438,7 +567,7 @@ def check_invariant(cx, bk):
                 tp.t, None if tp.next is None else "TimePoint(t=%s%s)" % (tp.next.t, "" if any(tp.next is q for q in pts) else ", not on the timeline"),
                 None if want_next is None else want_next.t))
     # registries -> bookkeeping
-    seen = [[0, 0] for _ in cx.objs]
+    seen = {}
     for tp in pts:
         cnt = 0
         for side, d in ((0, tp.starting_objects), (1, tp.ending_objects)):
@@ -449,19 +578,33 @@ def check_invariant(cx, bk):
                     if i is None:
                         fails.append("registry: unknown object listed at t=%s" % tp.t)
                         continue
-                    seen[i][side] += 1
+                    seen[(side, i, tp.t)] = seen.get((side, i, tp.t), 0) + 1
                     if type(o) is not cls:
                         fails.append("registry: object %d listed under %s" % (i, cls.__name__))
-                    if bk.reg[i][side] != tp.t:
+                    if (i, tp.t) not in bk.listed[side]:
                         fails.append("registry: object %d listed as %s at t=%s but registered at %s" % (
                             i, ("starting", "ending")[side], tp.t, bk.reg[i][side]))
                     ref = o.start if side == 0 else o.end
-                    if ref is not tp:
+                    if bk.reg[i][side] == tp.t and ref is not tp:
                         fails.append("backref: object %d is listed at t=%s but its %s refers to %s" % (
                             i, tp.t, ("start", "end")[side], None if ref is None else ref.t))
         if cnt == 0 and tp.t not in bk.requested:
             fails.append("empty: time point t=%s has no objects and was not requested" % tp.t)
     # bookkeeping -> registries
+    for side in (0, 1):
+        for (i, t) in sorted(bk.listed[side]):
+            n = seen.get((side, i, t), 0)
+            if n == 0 and bk.reg[i][side] != t:
+                # a STALE listing (left behind by a double registration, outside the property's quantifier) is
+                # gone: the property does not ask for it to stay - follow the part (the model comparison still
+                # reports the behavioural difference)
+                bk.listed[side].discard((i, t))
+                if t not in bk.times() and t not in ts:
+                    bk.requested.discard(t)
+                continue
+            if n != 1:
+                fails.append("registry: object %d listed %d times as %s at t=%s" % (
+                    i, n, ("starting", "ending")[side], t))
     for i, o in enumerate(cx.objs):
         for side in (0, 1):
             want = bk.reg[i][side]
@@ -470,15 +613,11 @@ def check_invariant(cx, bk):
                 if ref is not None:
                     fails.append("backref: object %d is not registered by %s but refers to t=%s" % (
                         i, ("start", "end")[side], ref.t))
-                if seen[i][side]:
-                    fails.append("registry: unregistered object %d still listed" % i)
             else:
                 if ref is None or ref.t != want or not any(ref is q for q in pts):
                     fails.append("backref: object %d registered at %s=%s refers to %s" % (
                         i, ("start", "end")[side], want,
                         None if ref is None else "t=%s%s" % (ref.t, "" if any(ref is q for q in pts) else " (not on the timeline)")))
-                if seen[i][side] != 1:
-                    fails.append("registry: object %d listed %d times as %s" % (i, seen[i][side], ("starting", "ending")[side]))
     # quarter table and quarter per point
     try:
         table = [(int(r[0]), int(r[1])) for r in p.quarter_durations().tolist()]
@@ -521,21 +660,33 @@ def matches(cx, i, c, incl):
 
 
 def check_objs(cx, bk, what, res, side, pred, cls, incl, descending=False):
-    """res (list of objects) must be exactly the registered objects satisfying pred on their time, time ordered"""
+    """res (list of objects) must be, time point by time point in time order, exactly the matching objects
+    listed there on `side` (inside `Valid`: the registered objects satisfying pred on their time)"""
+    from collections import Counter
+
     fails = []
     ids = cx.ids(res)
-    if len(set(ids)) != len(ids):
-        fails.append("query: %s returned an object twice: %r" % (what, ids))
-    want = set(i for i in range(len(cx.objs))
-               if bk.reg[i][side] is not None and pred(bk.reg[i][side]) and matches(cx, i, cls, incl))
-    if set(ids) != want:
-        fails.append("query: %s returned %r, registered matching objects are %r" % (what, sorted(set(ids)), sorted(want)))
-    else:
-        tt = [bk.reg[i][side] for i in ids]
-        bad = any(a < b for a, b in zip(tt, tt[1:])) if descending else any(a > b for a, b in zip(tt, tt[1:]))
-        if bad:
-            fails.append("query: %s not in time order: times %r" % (what, tt))
+    groups = {}
+    for (i, t) in bk.listed[side]:
+        if pred(t) and matches(cx, i, cls, incl):
+            groups.setdefault(t, set()).add(i)
+    want = Counter(i for g in groups.values() for i in g)
+    if Counter(ids) != want:
+        fails.append("query: %s returned %r, registered matching objects are %r" % (
+            what, sorted(ids), sorted(want.elements())))
+        return fails
+    pos = 0
+    for t in sorted(groups, reverse=descending):
+        g = groups[t]
+        seg = ids[pos:pos + len(g)]
+        pos += len(g)
+        if set(seg) != g:
+            fails.append("query: %s not in time order: objects %r, expected at t=%s: %r" % (what, ids, t, sorted(g)))
+            break
     return fails
+
+
+NP_KINDS = ("np_ss", "np_ins", "np_del", "npstate")
 
 
 def evaluate(desc):
@@ -571,7 +722,7 @@ def evaluate(desc):
             res = "err:" + type(e).__name__
         after = cx.dump()
         requests.append(request_of(op))
-        impl.append(res + ";" + after)
+        impl.append(res if k in NP_KINDS else res + ";" + after)
         branches[k + ("!" if exc is not None else "")] = branches.get(k + ("!" if exc is not None else ""), 0) + 1
         if not bk.valid:
             continue
@@ -579,10 +730,6 @@ def evaluate(desc):
         neg = False
         if k == "add":
             neg = (op[2] is not None and op[2] < 0) or (op[3] is not None and op[3] < 0)
-            if not neg and ((op[2] is not None and bk.reg[op[1]][0] is not None)
-                            or (op[3] is not None and bk.reg[op[1]][1] is not None)):
-                bk.valid = False  # double registration: outside the property's quantifier
-                continue
         elif k in ("goa", "gp", "prev", "next"):
             neg = op[1] < 0
         if neg:
@@ -601,14 +748,19 @@ def evaluate(desc):
             continue
         # update the bookkeeping
         if k == "add":
-            if op[2] is not None:
-                bk.reg[op[1]][0] = op[2]
-            if op[3] is not None:
-                bk.reg[op[1]][1] = op[3]
+            # a supplied side is (re)set and listed at its point; nothing is ever deregistered by `add`
+            for side, t in ((0, op[2]), (1, op[3])):
+                if t is not None:
+                    bk.listed[side].add((op[1], t))
+                    bk.reg[op[1]][side] = t
         elif k == "rm":
+            # exactly the listing the object's reference points to goes away; an unregistered side: nothing
+            if bk.reg[op[1]][0] is None and bk.reg[op[1]][1] is None and after != before:
+                fail(opi, op, "frame: remove of an unregistered object changed the part: before %s after %s" % (before, after))
             for side, ch in ((0, "s"), (1, "e")):
                 if op[2] in (ch, "b") and bk.reg[op[1]][side] is not None:
                     t = bk.reg[op[1]][side]
+                    bk.listed[side].discard((op[1], t))
                     bk.reg[op[1]][side] = None
                     if t not in bk.times():
                         bk.requested.discard(t)
@@ -619,7 +771,7 @@ def evaluate(desc):
             if raw is None or raw.t != op[1] or not any(raw is q for q in cx.part._points):
                 fail(opi, op, "query: get_or_add_point did not return the point of the timeline at t")
         # frame conditions
-        if k in ("all", "prev", "next", "first", "last", "gp", "qds", "sweep"):
+        if k in ("all", "prev", "next", "first", "last", "gp", "qds", "sweep", "qmap") + NP_KINDS:
             if after != before:
                 fail(opi, op, "frame: read-only query changed the part: before %s after %s" % (before, after))
         if k in ("add", "rm", "goa") and before_table is not None:
@@ -689,6 +841,37 @@ def evaluate(desc):
             want = [[x, q] for x, q in before_table if (a is None or x >= a) and (b is None or x < b)]
             if [[int(r[0]), int(r[1])] for r in raw] != want:
                 fail(opi, op, "query: quarter_durations(%s,%s) returned %r, expected %r" % (a, b, raw, want))
+        elif k == "qmap" and before_table:
+            if not raw["shape_ok"]:
+                fail(opi, op, "quarter: quarter_duration_map(%s argument) returned a result of the wrong shape" % op[2])
+            for x, fv, cv in zip(raw["x"], raw["fresh"], raw["cached"]):
+                want = qfn(before_table, x)
+                if fv != want:
+                    fail(opi, op, "quarter: quarter_duration_map(%s) = %r, in force is %s (table %r)" % (x, fv, want, before_table))
+                    break
+                if cv != want:
+                    fail(opi, op, "quarter: cached quarter map gives %r at %s, table says %s" % (cv, x, want))
+                    break
+        elif k == "np_ss":
+            arr, key = op[1], op[2]
+            if all(a <= b for a, b in zip(arr, arr[1:])):
+                want = min([j for j, v in enumerate(arr) if v >= key] + [len(arr)])
+                if raw != want:
+                    fail(opi, op, "np: searchsorted(%r, %d) = %r, least index with element >= key is %d" % (arr, key, raw, want))
+        elif k in ("np_ins", "np_del"):
+            arr, j = op[1], op[2]
+            if k == "np_ins":
+                want = arr[:j] + [op[3]] + arr[j:] if j <= len(arr) else None
+            else:
+                want = arr[:j] + arr[j + 1:] if j < len(arr) else None
+            if raw != want:
+                fail(opi, op, "np: %s(%r, %d) = %r, expected %r" % (k, arr, j, raw, want))
+        elif k == "npstate":
+            ts = [tp.t for tp in cx.part._points]
+            qt = list(cx.part._quarter_times)
+            want = (len([v for v in ts if v < op[1]]), len([v for v in qt if v < op[1]]))
+            if raw != want:
+                fail(opi, op, "np: searchsorted on the part's arrays at %d = %r, expected %r" % (op[1], raw, want))
         elif k == "sweep":
             a, b = op[1], op[2]
             for (c, incl, mode), res in raw.items():
@@ -697,14 +880,18 @@ def evaluate(desc):
                         1 if mode == "ending" else 0,
                         lambda x: (a is None or a <= x) and (b is None or x < b), c, True if c is None else incl):
                     fail(opi, op, f)
+    # the (decidable) weak invariant must hold of the model state at the end of EVERY history
+    requests.append("winv")
+    impl.append("1")
     if bk.valid:
-        # the (decidable) model invariant must hold of the model state at the end of a valid history
+        # the full invariant holds exactly when no stale listing is left (Inv <-> WInv and Strict)
         requests.append("inv")
-        impl.append("1")
+        impl.append("1" if bk.strict() else "0")
     key = None
     if nontrivial:
         key = "%r|%r" % (desc["cls"], desc["ops"])
-    return Eval(requests, impl, oracle, key, {"branches": branches, "valid": bk.valid, "nops": len(desc["ops"])})
+    return Eval(requests, impl, oracle, key, {"branches": branches, "valid": bk.valid, "strict": bk.strict(),
+                                              "nops": len(desc["ops"])})
 
 
 def finding_key(desc, failure):
@@ -736,13 +923,16 @@ def distribution(descs, results):
     br = Counter()
     nops = Counter()
     valid = 0
+    strict = 0
     for r in results:
         info = r.get("info") or {}
         for k, v in (info.get("branches") or {}).items():
             br[k] += v
         nops[min(60, (info.get("nops") or 0)) // 10 * 10] += 1
         valid += 1 if info.get("valid") else 0
+        strict += 1 if info.get("strict") else 0
     return {"operations (! = raised)": dict(br), "history length (decade)": dict(nops),
-            "histories valid to the end": valid, "histories": len(descs),
+            "histories without an unexpected exception": valid, "histories": len(descs),
+            "histories ending without a stale listing (inside Valid, or double registration undone)": strict,
             "objects": dict(Counter(len(d["cls"]) for d in descs)),
             "classes used": len(set(c for d in descs for c in d["cls"]))}
